@@ -122,6 +122,7 @@ pub enum ReverseStep {
     PopSpecial,
     PushSpecial(Special),
     DropLocal(usize),
+    SetLocal(usize, Cell),
     SwapRef(CellRef, Cell),
 }
 
@@ -1155,19 +1156,27 @@ impl State {
             Opcode::InitLocal(i) => {
                 let idx = *i;
                 let val = self.pop_data()?;
+                let recording = self.is_recording();
                 let frame = self.top_frame()?;
+                let mut undo = Vec::new();
                 // earlier locals whose declaration was skipped (untaken branch,
                 // zero-trip loop) keep their slot
                 while frame.locals.len() < idx {
+                    undo.push(ReverseStep::DropLocal(frame.locals.len()));
                     frame.locals.push_back_mut(Cell::Nil);
                 }
                 if idx < frame.locals.len() {
-                    frame.locals[idx] = val;
+                    // re-initialised (declared inside a loop): remember the old value
+                    let old = std::mem::replace(&mut frame.locals[idx], val);
+                    undo.push(ReverseStep::SetLocal(idx, old));
                 } else {
+                    undo.push(ReverseStep::DropLocal(idx));
                     frame.locals.push_back_mut(val);
                 }
-                if self.is_recording() {
-                    self.add_reverse_step(ReverseStep::DropLocal(idx));
+                if recording {
+                    for step in undo {
+                        self.add_reverse_step(step);
+                    }
                 }
                 self.next_ip();
             }
@@ -1337,6 +1346,10 @@ impl State {
             ReverseStep::DropLocal(_) => {
                 let f = self.top_frame()?;
                 f.locals.drop_last_mut();
+            }
+            ReverseStep::SetLocal(idx, old) => {
+                let f = self.top_frame()?;
+                f.locals.set_mut(idx, old);
             }
             ReverseStep::SwapRef(cref, val) => {
                 let idx = cref.index();
